@@ -215,6 +215,8 @@ def family_section(ctx):
                   {"name": "d", "unicodes": [0x64], "width": Fr(540 + d), "contours": [], "anchors": [],
                    "components": [("a", one + (Fr(3 + d), Fr(0)))] + ([("b", one + (Fr(200), Fr(0)))] if skip_kind == "component" else [])}]
             lb = {"public.skipExportGlyphs": ["b"]} if skip_kind in ("unreferenced", "component", "ufo-lib-only") else {}
+            if skip_kind == "ufo-lib-only" and k == 0 and (i // 25) % 2 == 0:
+                lb = {}          # only the LAST master's lib names `b`: a font list skips the union of the masters' lists
             # (one family in three: the masters store DIFFERENT glyph orders -- every compiled master follows its own, the
             # variable font the default source's)
             order = ["c", "b", "ghost", "a", "c"] if k == 0 or i % 3 != 1 else ["zeta", "d", "a", "b"]
